@@ -542,7 +542,7 @@ func tokenLineRule(r *Run, rule string) {
 
 func cursorOwnershipRule(r *Run, rule string) {
 	w := r.W
-	m := analyseLexerArms(w)
+	m := analyseLexerArmsLight(w)
 	if len(m.problems) > 0 || m.readChar == nil || m.line == nil || len(m.posF) == 0 {
 		r.Lost(rule, "lexer model (cursor fields, line counter): "+strings.Join(m.problems, "; "))
 		return
